@@ -4,6 +4,7 @@ package main
 import (
 	"fmt"
 	"os"
+	"regexp"
 	"sort"
 	"strings"
 
@@ -11,6 +12,8 @@ import (
 )
 
 func sortStrings(s []string) { sort.Strings(s) }
+
+var genNameRe = regexp.MustCompile(`\b(arg|ret|ctx|err)[0-9]*\b`)
 
 // methodNames extracts the method names of a `find` answer.
 func findParts(ans string) (names, params, sigs, imports string) {
@@ -49,6 +52,10 @@ func keyOf(d *hx.Disagreement) string {
 		case p1 != p2:
 			return "C19:find:param-names"
 		case s1 != s2:
+			// generated names inside a func-typed parameter are parameter naming too
+			if genNameRe.ReplaceAllString(s1, "${1}N") == genNameRe.ReplaceAllString(s2, "${1}N") {
+				return "C19:find:param-names"
+			}
 			return "C19:find:type-ref"
 		case i1 != i2:
 			return "C19:find:imports"
@@ -74,7 +81,7 @@ func runC19(f *hx.Flags) {
 		return
 	}
 	r.RunCorpus()
-	n := r.N(30)
+	n := r.N(60)
 	if f.Tier == "thorough" {
 		n = r.N(600)
 	}
